@@ -211,4 +211,13 @@ func runC17(c *Ctx) {
 	c.rule("R5", "the bytes of a received reply (incl. the TC flag the fallback tests) are not modified on their way to the caller, except the id restoration", 3)
 	checkReplyBytesUntouched(c, p.funcsIn(relTransport, relUpstream, relDnsutils, relDoh))
 
+
+	c.rule("R6", "the TCP reply handed to the caller answers the fallback's own query: a non-pipelined connection re-enters the idle set only after its reply was read or when it was never used", 4)
+	{
+		tf := p.funcsIn(relTransport)
+		lf := p.newLockFacts()
+		lf.analyseScope(tf)
+		checkIdleExclusive(c, tf, lf)
+	}
+
 }
